@@ -444,6 +444,15 @@ zif_open(const char *file)
 		if (UNLIKELY(memcmp(hds, TZ_MAGIC, 4U))) {
 			goto unmp;
 		}
+		switch (hds[offsetof(struct zih_s, tzh_version)]) {
+		case '2':
+		case '3':
+			break;
+		default:
+			/* the second header decides how the data is read,
+			 * a version-1 or unknown one is no good here */
+			goto unmp;
+		}
 		hdr = hds;
 	}
 	case '\0':
